@@ -141,8 +141,10 @@ class SpecMixin:
             return v
         if desc == 'bool':
             return self.fresh(name, 'bool')
-        if desc in ('bytes', 'str'):
-            return SymStr(desc, self.fresh(name, 'str'))
+        if desc == 'bytes':
+            return self.new_abs(name)
+        if desc in ('str', 'hbytes', 'hstr'):
+            return SymStr({'hbytes': 'bytes', 'hstr': 'str'}.get(desc, desc), self.fresh(name, 'str'))
         if desc.startswith('enum:'):
             ci = self.class_named(desc[5:])
             v = self.fresh(name, 'int')
@@ -166,7 +168,7 @@ class SpecMixin:
         if desc == 'list':
             return self.heap.alloc(ListObj([]))
         if desc == 'bytearray':
-            return self.heap.alloc(Obj('builtins.bytearray', {'data': SymStr('bytes', self.fresh(name, 'str'))}))
+            return self.heap.alloc(Obj('builtins.bytearray', {'data': self.new_abs(name)}))
         if desc == 'closedstreams':
             ci = self.class_named('h2.utilities.SizeLimitDict')
             m = self.new_sym_map(name, None, scalar_desc='optenum:StreamClosedBy')
